@@ -386,6 +386,12 @@ def gen_update(rng, shape: dict, unknown_codes: list[int], force: str | None = N
         used = {a['code'] for a in attrs}
         cand = [c for c in unknown_codes if c not in used]
         attrs.append(gen_unknown(rng, cand, tags))
+    if want_path_attrs and rng.random() < 0.12:
+        # AIGP (RFC 7311): optional non-transitive, one TLV of type 1 and length 11.  M-Wire carries it as the bytes
+        # it is; whether it is REPORTED is a session parameter (`capability aigp`, the AIGP_SESSION of RFC 7311 3.3)
+        metric = rng.choice([0, 1, 100, 2**32 - 1, 2**32, 2**64 - 1, rng.getrandbits(64)])
+        attrs.append({'code': 26, 'f': ['01000b%016x' % metric], 'flags': '100' + ('1' if rng.random() < 0.15 else '0')})
+        tags.add('aigp')
     attrs += mp
     order = rng.random()
     if order < 0.4:
